@@ -1,8 +1,10 @@
-(* C10/C11 - the CURRENT code: repairs A, B and D are applied (`current`), the function-start key
-   collision C is a known finding.  On programs in which no statement starts with a function
-   (`no_fn_stmt`) the current analyzer computes exactly what the fully repaired one computes, so the
-   soundness theorems of SoundnessRepaired.v carry over; witnesses show that the side condition is needed. *)
-From V Require Import CF.Soundness CF.SemDecide CF.SemDecideProofs CF.Oracle CF.SoundnessRepaired.
+(* C10/C11 - the CURRENT code: repairs A, B, D and E are applied (`current`), the function-start key
+   collision C is a known finding.  On programs without function-likes (`no_fn_stmt`) the current analyzer
+   computes exactly the map that the fully repaired one computes (`analyze_current_repaired`); on the larger
+   class `fn_stmt_safe` the two ghost analyses agree (GhostCong.v), which carries the soundness theorems over;
+   witnesses show that the side condition is needed. *)
+From V Require Import CF.Soundness CF.AnalyzerG CF.SemDecide CF.SemDecideProofs CF.Oracle CF.SoundnessInv CF.SoundnessMap CF.SoundnessCases
+  CF.SoundnessRepaired CF.GhostCong.
 
 (* the only use of fixC is in the Function arm of with_child_scope *)
 Lemma child_exit_cur k start x c : k <> KFunction -> child_exit current k start x c = child_exit repaired k start x c.
@@ -86,27 +88,105 @@ Proof.
   intros H. unfold analyze, analyze_st. destruct an_current_repaired as [_ [HL _]]. rewrite (HL _ H). reflexivity.
 Qed.
 
-Theorem C10_sound_current :
-  forall p pi, wf p -> no_fn_stmt p -> In pi (no_unreachable current p) -> ~ prog_enters p pi.
+(* ------------------------------------------------------------------ *)
+(* The soundness theorems for the current code, under the finer side condition `fn_stmt_safe` (Syntax.v): function
+   declarations and arrow / getter expression statements are allowed, except where the end reason recorded under the
+   statement's own key is read back.  Route: layer 1 for `current` (map analysis = ghost analysis, SoundnessMap.v /
+   SoundnessCases.v hold for every variant), then GhostCong.v (the ghost analyses of `current` and `repaired` produce the
+   same log and reasons), then layer 2 for `repaired` (SoundnessInv.v). *)
+Lemma nofn_fnsafe :
+  (forall s, nofn s = true -> fnsafe s = true /\ is_fnstart s = false) /\
+  (forall l, nofn_l l = true -> fnsafe_l l = true /\ no_fnstart_top l = true) /\
+  (forall cs, nofn_c cs = true -> fnsafe_c cs = true).
 Proof.
-  intros p pi Hwf Hn Hin. unfold no_unreachable in Hin. rewrite (analyze_current_repaired p Hn) in Hin.
-  exact (C10_sound_repaired p pi Hwf Hin).
+  apply stmt_mutind; cbn [nofn nofn_l nofn_c fnsafe fnsafe_l fnsafe_c is_fnstart no_fnstart_top]; try (intros; split; reflexivity); try discriminate.
+  - intros p b IHb H. split; [apply IHb; exact H | reflexivity].
+  - intros p c a IHa H. split; [apply IHa; exact H | reflexivity].
+  - intros p c a IHa b IHb H. apply andb_true_iff in H. destruct H as [Ha Hb]. destruct (IHa Ha) as [A1 A2]. destruct (IHb Hb) as [B1 B2].
+    rewrite A1, A2, B1, B2. split; reflexivity.
+  - intros p c b IHb H. destruct (IHb H) as [B1 B2]. rewrite B1, B2. split; reflexivity.
+  - intros p b IHb c H. destruct (IHb H) as [B1 B2]. rewrite B1, B2. split; reflexivity.
+  - intros p c b IHb H. destruct (IHb H) as [B1 B2]. rewrite B1, B2. split; reflexivity.
+  - intros p b IHb H. split; [apply IHb; exact H | reflexivity].
+  - intros p b IHb H. split; [apply IHb; exact H | reflexivity].
+  - intros p cs IH H. split; [apply IH; exact H | reflexivity].
+  - intros p l b IHb H. split; [apply IHb; exact H | reflexivity].
+  - intros p bp blk IHb h hb IHh f fb IHf H. apply andb_true_iff in H. destruct H as [H Hf]. apply andb_true_iff in H. destruct H as [Hb Hh].
+    rewrite (proj1 (IHb Hb)), (proj1 (IHh Hh)), (proj1 (IHf Hf)). split; reflexivity.
+  - intros s IHs r IHr H. apply andb_true_iff in H. destruct H as [Hs Hr]. destruct (IHs Hs) as [S1 S2]. destruct (IHr Hr) as [R1 R2].
+    rewrite S1, S2, R1, R2. split; reflexivity.
+  - intros cp d ft b IHb r IHr H. apply andb_true_iff in H. destruct H as [Hb Hr]. destruct (IHb Hb) as [B1 B2].
+    rewrite B1, B2, (IHr Hr). reflexivity.
+Qed.
+
+(* the old side condition implies the new one *)
+Theorem no_fn_stmt_safe p : no_fn_stmt p -> fn_stmt_safe p.
+Proof. intros H. destruct nofn_fnsafe as [_ [HL _]]. apply (HL (p_body p) H). Qed.
+
+Theorem C10_sound_current :
+  forall p pi, wf p -> fn_stmt_safe p -> In pi (no_unreachable current p) -> ~ prog_enters p pi.
+Proof.
+  intros p pi Hwf Hs Hin Hent.
+  unfold no_unreachable, no_unreachable_on in Hin. apply in_map_iff in Hin. destruct Hin as [t [Ept Hin]].
+  apply filter_In in Hin. destruct Hin as [_ Hfl]. unfold flagged_unreachable in Hfl. apply andb_true_iff in Hfl. destruct Hfl as [_ Hu].
+  destruct (analyze_ghost current p Hwf) as [Est _].
+  assert (HU : U (g_st (analyzeG current p)) pi = true).
+  { unfold U. rewrite <- Est. unfold analyze in Hu. rewrite Ept in Hu. exact Hu. }
+  destruct (anG_ulog current) as [_ [HL _]].
+  pose proof (ulog_block_end (p_pb p) _ (HL (p_body p)) init_st pi HU) as Hlog.
+  destruct Hlog as [Hbad | Hlog]; [discriminate Hbad|].
+  (* the same log entry in the ghost analysis with all repairs on *)
+  destruct (analyzeG_cong p Hs) as [Elg _]. unfold logged in Hlog.
+  change (In (GStmt pi true true) (g_lg (analyzeG current p))) in Hlog. rewrite Elg in Hlog.
+  pose proof (wf_keys p Hwf) as Hn. apply NoDup_cons_inv in Hn. destruct Hn as [Hpb Hnb].
+  destruct (ghost_sound p Hnb) as [HC10 _].
+  apply (HC10 pi true Hlog). apply memN_In. apply prog_enters_iff. exact Hent.
 Qed.
 
 Theorem C11_getter_sound_current :
-  forall p, wf p -> no_fn_stmt p -> p_getter p = true -> prog_falls_off_end p -> In (p_start p) (getter_return current p).
+  forall p, wf p -> fn_stmt_safe p -> p_getter p = true -> prog_falls_off_end p -> In (p_start p) (getter_return current p).
 Proof.
-  intros p Hwf Hn Hg Hf. unfold getter_return. rewrite (analyze_current_repaired p Hn).
-  exact (C11_getter_sound_repaired p Hwf Hg Hf).
+  intros p Hwf Hs Hg Hfall. unfold getter_return, getter_return_on, all_getters. rewrite Hg. cbn [app flat_map].
+  apply in_or_app. left. unfold getter_diags. cbn [fst snd]. apply in_or_app. left.
+  assert (Hc : getter_entry_continues (analyze current p) (p_pb p) = true).
+  { unfold getter_entry_continues. destruct (iget (analyze current p) (p_pb p)) as [m|] eqn:Em; [|reflexivity].
+    destruct (analyze_ghost current p Hwf) as [_ Er]. destruct (analyzeG_cong p Hs) as [_ Ers]. rewrite Ers in Er.
+    pose proof (wf_keys p Hwf) as Hn. apply NoDup_cons_inv in Hn. destruct Hn as [Hpb Hnb].
+    destruct (ghost_sound p Hnb) as [_ [HG _]].
+    unfold continues_execution. unfold E, get_end_reason in Er. unfold analyze in Em. rewrite Em in Er. rewrite Er.
+    apply HG. apply prog_falls_off_iff. exact Hfall. }
+  rewrite Hc. left. reflexivity.
 Qed.
 
 Theorem C11_case_sound_current :
-  forall p sw cs b, wf p -> no_fn_stmt p ->
+  forall p sw cs b, wf p -> fn_stmt_safe p ->
     sub_stmts (SSwitch sw cs) (p_body p) -> prog_enters p sw -> case_in b cs ->
     any_stops (analyze current p) b = true -> ~ exec_l b Normal.
 Proof.
-  intros p sw cs b Hwf Hn Hsub Hent Hc Hs. rewrite (analyze_current_repaired p Hn) in Hs.
-  exact (C11_case_sound_repaired p sw cs b Hwf Hsub Hent Hc Hs).
+  intros p sw cs b Hwf Hsafe Hsub Hent Hcase Hstops Hex.
+  pose proof (wf_keys p Hwf) as Hn. apply NoDup_cons_inv in Hn. destruct Hn as [Hpb Hnb].
+  destruct (analyze_ghost current p Hwf) as [Est _].
+  (* the log entries of the switch and of the case, in the ghost analysis of the current code *)
+  destruct (switch_entries current eq_refl) as [_ [HE _]].
+  destruct (HE _ _ Hsub sw cs eq_refl init_st) as [d [fl [Hsw Hcs]]]. destruct (Hcs b Hcase) as [stops Hb].
+  (* the logged flag is any_stops on the final map *)
+  destruct (case_flags_stable current) as [_ [HS _]].
+  pose proof (HS (p_body p) Hnb init_st (fresh_init _)) as Hcl.
+  assert (Hfinal : any_stops (analyze current p) b = stops).
+  { unfold analyze. rewrite Est. unfold analyzeG, block_endG.
+    destruct (anG_list current (p_body p) init_st) as [[y tops] lg] eqn:Eg. cbn [l_lg l_st g_st fst snd] in *.
+    destruct (Hcl b (negb d) stops Hb) as [Hin Hs]. rewrite <- Hs. apply any_stops_stable. intros t Ht.
+    unfold block_end. destruct (s_end (sc y)); apply iget_mark_neq; intros Eq; apply Hpb; rewrite <- Eq; apply (Hin t Ht). }
+  rewrite Hfinal in Hstops. subst stops.
+  (* the same entries in the log of the ghost analysis with all repairs on *)
+  destruct (analyzeG_cong p Hsafe) as [Elg _].
+  assert (Hlg : g_lg (analyzeG current p) = l_lg (anG_list current (p_body p) init_st)) by (unfold analyzeG; apply lg_block_end).
+  destruct (ghost_sound p Hnb) as [HC10 [_ HC]].
+  destruct d.
+  - assert (Hsw' : In (GStmt sw true fl) (g_lg (analyzeG repaired p))) by (rewrite <- Elg, Hlg; exact Hsw).
+    exfalso. apply (HC10 sw fl Hsw'). apply memN_In. apply prog_enters_iff. exact Hent.
+  - cbn [negb] in Hb. assert (Hb' : In (GCase b true true) (g_lg (analyzeG repaired p))) by (rewrite <- Elg, Hlg; exact Hb).
+    apply exec_l_iff_csem in Hex. cbn [cin] in Hex. rewrite (HC b Hb') in Hex. discriminate.
 Qed.
 
 (* ------------------------------------------------------------------ *)
@@ -124,21 +204,21 @@ Definition kC_case : program :=
   {| p_getter := false; p_start := 0; p_pb := 13; p_body := SCons (SSwitch 15 kC_case_cases) SNil |}.
 
 Theorem C10_known_class_C :
-  exists p pi, wf p /\ ~ no_fn_stmt p /\ In pi (no_unreachable current p) /\ prog_enters p pi.
+  exists p pi, wf p /\ ~ fn_stmt_safe p /\ In pi (no_unreachable current p) /\ prog_enters p pi.
 Proof.
   exists kC_c10, 68. split; [vm_compute; reflexivity|]. split; [vm_compute; discriminate|].
   split; [vm_compute; tauto | apply prog_enters_iff; vm_compute; reflexivity].
 Qed.
 
 Theorem C11_getter_known_class_C :
-  exists p, wf p /\ ~ no_fn_stmt p /\ p_getter p = true /\ prog_falls_off_end p /\ ~ In (p_start p) (getter_return current p).
+  exists p, wf p /\ ~ fn_stmt_safe p /\ p_getter p = true /\ prog_falls_off_end p /\ ~ In (p_start p) (getter_return current p).
 Proof.
   exists kC_getter. split; [vm_compute; reflexivity|]. split; [vm_compute; discriminate|]. split; [reflexivity|].
   split; [apply prog_falls_off_iff; vm_compute; reflexivity | vm_compute; tauto].
 Qed.
 
 Theorem C11_case_known_class_C :
-  exists p sw cs b, wf p /\ ~ no_fn_stmt p /\ sub_stmts (SSwitch sw cs) (p_body p) /\ prog_enters p sw /\ case_in b cs /\
+  exists p sw cs b, wf p /\ ~ fn_stmt_safe p /\ sub_stmts (SSwitch sw cs) (p_body p) /\ prog_enters p sw /\ case_in b cs /\
                     any_stops (analyze current p) b = true /\ exec_l b Normal.
 Proof.
   exists kC_case, 15, kC_case_cases, kC_case_body. split; [vm_compute; reflexivity|]. split; [vm_compute; discriminate|].
@@ -148,6 +228,7 @@ Proof.
 Qed.
 
 Print Assumptions analyze_current_repaired.
+Print Assumptions no_fn_stmt_safe.
 Print Assumptions C10_sound_current.
 Print Assumptions C11_getter_sound_current.
 Print Assumptions C11_case_sound_current.
